@@ -252,6 +252,7 @@ func (c *caseCtx) step(e ev, judge bool) *evRec {
 		return rec
 	}
 	var due time.Time
+	reqCtx := ""
 	if race {
 		// applicable only while a restart timer can be pending: the automata arm it when they
 		// send a Configure-/Terminate-Request (observed in the send callback)
@@ -316,6 +317,9 @@ func (c *caseCtx) step(e ev, judge bool) *evRec {
 			return rec
 		}
 		rec.Pkt = p
+		if p[0] == cConfReq {
+			reqCtx = c.ctxKey()
+		}
 		if _, cls := replyClass(k); cls != "" {
 			rec.IDClass = cls
 			rec.NoReq = !c.mon.hasOur
@@ -368,6 +372,9 @@ func (c *caseCtx) step(e ev, judge bool) *evRec {
 	rec.To, rec.rcA, rec.tsA = c.m.St(), c.m.RestartCount(), c.m.TimerSet()
 	rec.unmetB, rec.unmetA = !terminal[rec.From] && !rec.tsB, !terminal[rec.To] && !rec.tsA
 	rec.Effective = rec.From != rec.To || len(rec.Sent)+len(rec.Pre) > 0 || rec.rcA != rec.rcB || rec.tsA != rec.tsB
+	if rec.Pkt != nil && rec.Pkt[0] == cConfReq && rec.Err == "" && rec.Panic == "" {
+		c.noteRequest(rec, reqCtx)
+	}
 	if judge {
 		c.judgeEvent(rec)
 	}
@@ -563,6 +570,17 @@ func (c *caseCtx) ownVal(o topt) bool {
 	return false
 }
 
+func repeatsType(os []topt) bool {
+	var seen [256]bool
+	for _, o := range os {
+		if seen[o.T] {
+			return true
+		}
+		seen[o.T] = true
+	}
+	return false
+}
+
 func optKey(ctx string, o topt) string { return ctx + "|" + hex.EncodeToString(o.bytes()) }
 
 func (c *caseCtx) judgeReplies(rec *evRec) {
@@ -586,15 +604,60 @@ func (c *caseCtx) judgeReplies(rec *evRec) {
 			}
 			reqOpts, _ := parseOpts(data)
 			repOpts, okp := parseOpts(p.Data)
+			classes := contentClasses(reqOpts, len(data))
+			for _, cl := range classes {
+				run.Count("rcr_content_"+cl, 1)
+				run.Count("rcr_content_"+cl+"_answered_"+codeName(p.Code), 1)
+				run.Count("rcr_content_"+cl+"_"+sp.proto, 1)
+				run.Distinct("rcr_content_cases", sp.proto+"|"+cl+"|"+rec.From+"|"+codeName(p.Code))
+				if cl != "single-option" && cl != "distinct-types" {
+					run.Nontrivial("content|" + sp.name + "|" + cl + "|" + rec.From + "|" + codeName(p.Code))
+				}
+			}
+			if len(reqOpts) > 1 && len(reqOpts) <= 8 {
+				run.Distinct("rcr_option_type_orders_"+sp.proto, typeOrder(reqOpts))
+			}
 			if !okp {
 				c.viol(comp, "reply-options", codeName(p.Code)+"-malformed-options", fmt.Sprintf("%s sent a %s whose option list does not parse: %x", sp.proto, codeName(p.Code), p.Data))
 				continue
 			}
 			switch p.Code {
 			case cConfAck:
+				run.Count("acks_compared_with_request", 1)
+				// an option this automaton refused when it stood alone (same configuration context, learned from
+				// earlier single-option requests under this spec) must not be covered by an acknowledgement
+				refusedAlone := false
+				for _, o := range reqOpts {
+					if c.ownVal(o) {
+						continue
+					}
+					how, bad := sp.offending[optKey(ctx, o)]
+					if !bad || sp.acceptable[optKey(ctx, o)] {
+						continue
+					}
+					refusedAlone = true
+					run.Count("acks_covering_option_refused_alone", 1)
+					shape := "distinct-option-types"
+					for _, x := range reqOpts {
+						if x.T == o.T && !bytes.Equal(x.D, o.D) {
+							shape = "repeated-option-type"
+						}
+					}
+					verb := "naks"
+					if how == "ConfRej" {
+						verb = "rejects"
+					}
+					c.viol(comp, "ack-only-acceptable-options", "acks-option-it-"+verb+"-alone:"+shape,
+						fmt.Sprintf("%s acknowledged Configure-Request %x containing option %x, which the same automaton answers with %s when the option stands alone in the same configuration", sp.proto, data, o.bytes(), how))
+				}
+				if len(reqOpts) > 1 {
+					run.Count("acks_of_multi_option_requests_checked_against_single_option_answers", 1)
+				}
 				if !bytes.Equal(p.Data, data) {
-					c.viol(comp, "ack-repeats-options", "ack-data-differs", fmt.Sprintf("%s Configure-Ack data %x differs from the request's %x", sp.proto, p.Data, data))
-				} else {
+					c.viol(comp, "ack-repeats-options", ackDiffClass(reqOpts, repOpts, okp), fmt.Sprintf("%s Configure-Ack data %x differs from the request's %x", sp.proto, p.Data, data))
+				} else if !refusedAlone && !repeatsType(reqOpts) {
+					// learned as acknowledged: only from lists in which every option type occurs once (in a list
+					// that repeats a type one cannot tell from the outside which instance the automaton looked at)
 					for _, o := range reqOpts {
 						if !c.ownVal(o) {
 							sp.acceptable[optKey(ctx, o)] = true
@@ -637,6 +700,34 @@ func (c *caseCtx) judgeReplies(rec *evRec) {
 					}
 				}
 			case cConfNak, cConfRej:
+				if len(reqOpts) == 1 && len(repOpts) > 0 && !c.ownVal(reqOpts[0]) {
+					// the answer to an option standing alone (learned for the differential clause above)
+					if _, had := sp.offending[optKey(ctx, reqOpts[0])]; !had {
+						run.Count("options_learned_refused_alone", 1)
+					}
+					sp.offending[optKey(ctx, reqOpts[0])] = codeName(p.Code)
+				}
+				if p.Code == cConfRej {
+					// unchanged copies: no more copies of an option than the request held
+					cnt := map[string]int{}
+					for _, q := range reqOpts {
+						cnt[string(q.bytes())]++
+					}
+					extra := false
+					for _, o := range repOpts {
+						k := string(o.bytes())
+						if _, in := cnt[k]; in {
+							cnt[k]--
+							if cnt[k] < 0 {
+								extra = true
+							}
+						}
+					}
+					run.Count("rejects_copy_count_judged", 1)
+					if extra {
+						c.viol(comp, "nak-reject-only-offending", "ConfRej-more-copies-than-request", fmt.Sprintf("%s Configure-Reject %x lists an option more often than the request %x contained it", sp.proto, p.Data, data))
+					}
+				}
 				for _, o := range repOpts {
 					var same []topt
 					for _, q := range reqOpts {
